@@ -212,7 +212,11 @@ def expr(e, env):
     if k == "json":
         return JSON(pyval(e[1]))
     if k == "interval":
-        return Interval(**e[1])
+        kw = dict(e[1])
+        if "dialect" in kw:  # the (optional, rarely used) dialect keyword of the constructor, given by enum member name
+            from pypika_tortoise.enums import Dialects
+            kw["dialect"] = Dialects[kw["dialect"]]
+        return Interval(**kw)
     if k == "cast":
         return FN.Cast(X(e[1]), e[2])
     if k == "extract":
